@@ -2,6 +2,7 @@ package main
 
 import (
 	"fmt"
+	"go/token"
 	"go/types"
 	"strings"
 
@@ -408,6 +409,7 @@ func checkC07(c *Ctx, r *Report) {
 		w, n := (&Cut{Fn: f, Target: inSet(cw), Sep: inSet(flush), EdgeCut: notFlusher}).Run(c)
 		r6.Check(len(cw) == 1 && len(flush) >= 1 && w == "", "(*streamWrapper).CloseWrite: the pending handshake is flushed before the write side is closed", f.Pos(), n+1, "", "the protocol header can no longer be sent once the write side is closed: the remote never runs the handler", w)
 	}
+	r6.Check(flushAssertReachesLazyConn(c, basicP), "(*streamWrapper).CloseWrite: the interface asserted for Flush is one the lazy negotiator satisfies", token.NoPos, 1, "", "the type assertion never succeeds (method signature mismatch): the pending handshake is silently not flushed before the half-close", "")
 
 	// ---- R7 ---------------------------------------------------------------
 	r7 := r.Rule("C07-R7", "E6", 6, "handler registration wraps exactly the caller's handler on the negotiated stream; removal reaches the mux")
@@ -482,4 +484,61 @@ func wrapperAlloc(v ssa.Value, typeKey string) *ssa.Alloc {
 		return nil
 	}
 	return al
+}
+
+// flushAssertReachesLazyConn: every comma-ok type assertion applied to
+// streamWrapper.rw in CloseWrite asserts an interface that the static type of
+// what NewStream stores into rw (the lazy negotiator) implements. A `Flush()`
+// vs `Flush() error` mismatch makes the assertion fail silently at run time.
+func flushAssertReachesLazyConn(c *Ctx, basicP string) bool {
+	swT := basicP + ".streamWrapper"
+	f := c.Fn("(*" + swT + ").CloseWrite")
+	if f == nil {
+		return false
+	}
+	// static types stored into rw anywhere in the package
+	var stored []types.Type
+	for _, g := range c.FnsOfPkg(basicP) {
+		for _, in := range findInstrs(g, fieldWritePred(swT+".rw")) {
+			st, ok := in.(*ssa.Store)
+			if !ok {
+				continue
+			}
+			v := st.Val
+			for {
+				switch x := v.(type) {
+				case *ssa.ChangeInterface:
+					v = x.X
+					continue
+				case *ssa.MakeInterface:
+					v = x.X
+					continue
+				}
+				break
+			}
+			stored = append(stored, v.Type())
+		}
+	}
+	if len(stored) == 0 {
+		return false
+	}
+	ok := true
+	n := 0
+	allInstrs(f, func(in ssa.Instruction) {
+		ta, isTA := in.(*ssa.TypeAssert)
+		if !isTA || !isLoadOfField(swT+".rw")(ta.X) {
+			return
+		}
+		iface, isI := ta.AssertedType.Underlying().(*types.Interface)
+		if !isI {
+			return
+		}
+		n++
+		for _, t := range stored {
+			if !types.Implements(t, iface) {
+				ok = false
+			}
+		}
+	})
+	return ok && n >= 1
 }
